@@ -243,10 +243,7 @@ var vtC29Stubs = map[string]any{
 }
 
 var verifStubs_VerifC29History = vtC29Stubs
-var verifStubs_VerifC29PauseRace = vtC29Stubs
-var verifStubs_VerifC29FlushRace = vtC29Stubs
-var verifStubs_VerifC29ResetRace = vtC29Stubs
-var verifStubs_VerifC29TerminateRace = vtC29Stubs
+var verifStubs_VerifC29Script = vtC29Stubs
 
 // ---------- model endpoints ----------
 
@@ -404,7 +401,9 @@ func vtC29NewWorld() *vtC29World {
 	}
 	w.poke[0] = make(chan struct{}, 1)
 	w.poke[1] = make(chan struct{}, 1)
-	w.root[0] = vtC29Dir("a")
+	// both roots hold "a"; alpha additionally holds a file that has not been
+	// synchronized yet (the first cycle has something to stage and apply)
+	w.root[0] = vtC29Dir("a", "n0")
 	w.root[1] = vtC29Dir("a")
 	vtW = w
 	ProtocolHandlers[urlpkg.Protocol_Local] = vtC29Handler{}
@@ -747,13 +746,19 @@ func (o *vtC29Oracle) command(cmd int) {
 
 func (o *vtC29Oracle) finish() {
 	w := o.w
+	// nothing is slow any more; everything runs until all goroutines wait
+	o.openGate()
 	vtC29Settle()
 	o.quiet("at the end")
-	if o.status == vtC29Terminated {
+	switch o.status {
+	case vtC29Terminated:
 		vAssert(w.sessionFile == nil, "a terminated session is on disk again")
-	}
-	if o.status == vtC29Paused {
+	case vtC29Paused:
 		vAssert(w.sessionFile != nil && w.sessionFile.paused, "a paused session is no longer persisted as paused")
+	case vtC29Running:
+		// the loop is waiting for changes: every cycle it began is complete
+		vCover("running session settled")
+		o.checkKept("end")
 	}
 }
 
@@ -780,38 +785,43 @@ func VerifC29History() {
 	o.finish()
 }
 
-func vtC29Script(start int, settleFirst bool, cmds ...int) {
+var vtC29Scripts = [][]int{
+	0: {},
+	1: {vtC29CmdPause},
+	2: {vtC29CmdPause, vtC29CmdEdit, vtC29CmdRestart, vtC29CmdEdit, vtC29CmdResume},
+	3: {vtC29CmdFlushWait},
+	4: {vtC29CmdEdit, vtC29CmdFlushWait},
+	5: {vtC29CmdReset},
+	6: {vtC29CmdTerminate},
+	7: {vtC29CmdTerminate, vtC29CmdEdit, vtC29CmdResume, vtC29CmdFlushNoWait, vtC29CmdReset, vtC29CmdRestart},
+	8: {vtC29CmdPause, vtC29CmdFlushWait, vtC29CmdReset, vtC29CmdRestart, vtC29CmdFlushNoWait, vtC29CmdEdit},
+	9: {vtC29CmdRestart},
+}
+
+// VerifC29Script: one fixed command sequence (param "script"), issued without
+// settling in between: where the commands meet the session is decided by the
+// schedule (param sched_preempt) and by the slow endpoint call (param slow).
+// Param "start": 0 created running, 1 created paused, 2 loaded from disk, 3 =
+// 0 or 2; param "first": 1 = the session settles before the first command,
+// 0 = it does not, 2 = both.
+func VerifC29Script() {
 	w := vtC29NewWorld()
 	o := &vtC29Oracle{w: w}
-	o.start(start)
-	if settleFirst {
-		vtC29Settle()
+	start := vParam("start", 2)
+	if start == 3 {
+		start = vChoose(2) * 2
 	}
-	for _, c := range cmds {
+	o.start(start)
+	first := vParam("first", 1)
+	if first == 2 {
+		first = vChoose(2)
+	}
+	if first == 1 {
+		vtC29Settle()
+		o.quiet("after start")
+	}
+	for _, c := range vtC29Scripts[vParam("script", 1)] {
 		o.command(c)
 	}
 	o.finish()
-}
-
-// VerifC29PauseRace: pause meets the session wherever the schedule puts it
-// (no settling before the command), then an edit, a restart and a resume.
-func VerifC29PauseRace() {
-	vtC29Script(vChoose(2)*2, vChoose(2) == 1, vtC29CmdPause, vtC29CmdEdit, vtC29CmdRestart, vtC29CmdEdit, vtC29CmdResume, vtC29CmdFlushWait)
-}
-
-// VerifC29FlushRace: a waiting flush requested wherever the schedule puts the
-// running cycle.
-func VerifC29FlushRace() {
-	vtC29Script(vChoose(2)*2, true, vtC29CmdEdit, vtC29CmdFlushWait, vtC29CmdFlushWait)
-}
-
-// VerifC29ResetRace: a reset wherever the schedule puts the running cycle,
-// followed by a complete cycle.
-func VerifC29ResetRace() {
-	vtC29Script(2, vChoose(2) == 1, vtC29CmdReset, vtC29CmdFlushWait)
-}
-
-// VerifC29TerminateRace: terminate wherever the schedule puts the session.
-func VerifC29TerminateRace() {
-	vtC29Script(vChoose(2)*2, vChoose(2) == 1, vtC29CmdTerminate, vtC29CmdEdit, vtC29CmdResume, vtC29CmdFlushWait, vtC29CmdReset, vtC29CmdRestart)
 }
